@@ -545,3 +545,46 @@ pub fn pipeline(prog: &Prog, pp: &PublicParameters, label: &[u8], routes: (bool,
 pub fn min_degree(constraints: usize) -> usize {
     (constraints + 6).next_power_of_two()
 }
+
+
+/// Transcript labels of boundary lengths and byte contents (the label is stored in
+/// a serialized prover behind a length field and absorbed into every transcript).
+pub fn label_menu(tier: crate::ev::Tier) -> Vec<(String, Vec<u8>)> {
+    let lens: Vec<usize> = tier.pick(vec![0, 1, 7, 8, 9, 32, 63, 64, 65, 255, 256, 257, 4096, 65535, 65536], vec![0, 1, 2, 7, 8, 9, 15, 16, 17, 31, 32, 33, 47, 48, 63, 64, 65, 127, 128, 129, 255, 256, 257, 1023, 1024, 4096, 65535, 65536, 65537, 1 << 20]);
+    let mut out = vec![];
+    for len in lens {
+        for pat in ["text", "zeros", "ff"] {
+            if len == 0 && pat != "text" {
+                continue;
+            }
+            if len > 300 && pat != "text" && tier == crate::ev::Tier::Quick {
+                continue;
+            }
+            let bytes: Vec<u8> = match pat {
+                "text" => {
+                    let base: &[u8] = b"dusk-network/plonk label \x00\xff";
+                    (0..len).map(|i| base[i % base.len()] ^ ((i / base.len()) as u8)).collect()
+                }
+                "zeros" => vec![0u8; len],
+                _ => vec![0xffu8; len],
+            };
+            out.push((format!("label/{}-{}", len, pat), bytes));
+        }
+    }
+    out
+}
+
+/// Label used for a named case: the menu entry for `label/...` names, otherwise
+/// empty or a short fixed label by name parity.
+pub fn label_of(name: &str, tier: crate::ev::Tier, fixed: &[u8]) -> Vec<u8> {
+    if name.starts_with("label/") {
+        if let Some((_, b)) = label_menu(tier).into_iter().find(|(n, _)| n == name) {
+            return b;
+        }
+    }
+    if name.len() % 2 == 0 {
+        vec![]
+    } else {
+        fixed.to_vec()
+    }
+}
